@@ -5,7 +5,7 @@ from __future__ import annotations
 import ast
 
 from ..cfg import CFG
-from ..core import AnalysisError, const_value, walk_own
+from ..core import callee_is, AnalysisError, const_value, walk_own
 from ..defuse import DefUse, Terms, show, walk_term
 
 EXPLANATION = (
@@ -182,7 +182,7 @@ def _models_seeded(ctx):
     f = prog.func("mokapot.brew.brew")
     du = DefUse(prog, f)
     ctors = [n for n in ast.walk(f.node) if isinstance(n, ast.Call)
-             and ast.unparse(n.func) in ("PercolatorModel", "Model")]
+             and callee_is(prog, f, n, "PercolatorModel", "Model")]
     for c in ctors:
         kws = {k.arg: k.value for k in c.keywords}
         rs = kws.get("rng")
@@ -205,7 +205,7 @@ def _models_seeded(ctx):
     pm = prog.func("mokapot.model.PercolatorModel.__init__")
     dp = DefUse(prog, pm)
     kf = [n for n in ast.walk(pm.node) if isinstance(n, ast.Call)
-          and ast.unparse(n.func) == "KFold"]
+          and callee_is(prog, pm, n, "KFold")]
     ok_k = False
     for k in kf:
         rs = {x.arg: x.value for x in k.keywords}.get("random_state")
@@ -215,7 +215,7 @@ def _models_seeded(ctx):
               "parameter", "KFold random_state is not derived from rng",
               node=pm.node)
     svc = [n for n in ast.walk(pm.node) if isinstance(n, ast.Call)
-           and ast.unparse(n.func) == "LinearSVC"]
+           and callee_is(prog, pm, n, "LinearSVC")]
     ok_s = bool(svc) and all(
         const_value({x.arg: x.value for x in s.keywords}.get(
             "random_state")) is not None for s in svc)
